@@ -36,6 +36,11 @@ def window_cfgs(results, nested=False):
         for (a, b) in ws:
             if b - a >= 1.0 / 64:
                 out.append('dbd %s %d %d %.10g %.10g' % (c['name'], c['level'], c['mode'], a, b))
+        if nested and r64(0.5 * e0) >= 1.0 / 64:
+            # one-sided windows (decay0_generator accepts an undefined bound; bxdecay0-run --dbd-emin X alone produces one):
+            # the missing side defaults to 0 / 4.3 MeV; "-1" encodes the absent bound
+            out.append('dbd %s %d %d %.10g -1' % (c['name'], c['level'], c['mode'], r64(0.5 * e0)))
+            out.append('dbd %s %d %d -1 %.10g' % (c['name'], c['level'], c['mode'], r64(0.5 * e0)))
     return out
 
 
